@@ -287,6 +287,52 @@ def c17_6(ck, prog):
         r.ok('block_pending_call:connected-before-every-rewait')
 
 
+def c17_7(ck, prog):
+    r = ck.rule('C17.7', 'every timeout of a connection reaches the main loop: when timeout (and watch) functions are '
+                'installed, the already recorded timeouts are handed over by a walk from the first link with next '
+                'steps only; timed waits convert milliseconds to seconds / sub-seconds by / 1000 and % 1000', 'TAB',
+                breaks='calls made before the main loop was attached have no timer (they never time out), or a '
+                       'timed wait lasts a thousand times too long', floor=4)
+    from rules.C06 import walk_direction
+    for name, file in (('_dbus_timeout_list_set_functions', 'dbus/dbus-timeout.c'),
+                       ('_dbus_watch_list_set_functions', 'dbus/dbus-watch.c')):
+        fn = prog.fn(name, file)
+        f1, nx, back = walk_direction(fn)
+        key = '%s:first->next' % name
+        if f1 >= 1 and nx >= 1 and back == 0:
+            r.ok(key, {'first': f1, 'next': nx})
+        else:
+            r.violation(key, name, file, fn.line, 'the hand-over walk is not first -> next over the whole list '
+                        '(get_first_link: %d, next steps: %d, last/prev steps: %d)' % (f1, nx, back))
+    # unit conversions of millisecond timeouts
+    n = 0
+    for f in lib.prod_funcs(prog):
+        if not f.file.startswith('dbus/'):
+            continue
+        for b, i, ev in f.events():
+            for lhs, how, rhs in written_lvalues(ev):
+                if lhs.get('k') != 'member' or lhs.get('field') not in ('tv_sec', 'tv_usec', 'tv_nsec') or how != '=' \
+                        or not isinstance(rhs, dict):
+                    continue
+                ms = [x for x in walk(rhs) if is_ref(x) and 'millisecond' in (x.get('name') or '')]
+                if not ms:
+                    continue
+                n += 1
+                ops = [(x['op'], x['r'].get('v')) for x in walk(rhs) if x.get('k') == 'bin' and is_int(x.get('r') or {})]
+                need = {'tv_sec': [('/', 1000)], 'tv_usec': [('%', 1000), ('*', 1000)],
+                        'tv_nsec': [('%', 1000)]}[lhs['field']]
+                key = '%s:%s' % (f.name, lhs['field'])
+                if all(o in ops for o in need):
+                    r.ok(key, {'site': '%s:%d' % (f.file, ev['line'])})
+                else:
+                    r.violation(key, f.name, f.file, ev['line'],
+                                '%s = %s: a millisecond count is stored in %s without %s' % (
+                                    estr(lhs), estr(rhs)[:80], lhs['field'],
+                                    ' and '.join('%s %d' % o for o in need)))
+    if n < 2:
+        raise AnalysisBroken('millisecond conversions not found')
+
+
 def lock_event(c):
     cal = c.get('callee') or ''
     if cal == '_dbus_connection_lock':
@@ -502,6 +548,7 @@ def run(ck):
         c17_1c(ck, prog)
         c17_5(ck, prog)
         c17_6(ck, prog)
+        c17_7(ck, prog)
         c17_2(ck, prog)
         c17_3(ck, prog)
         c17_4(ck, prog)
